@@ -414,3 +414,37 @@ fn c01_glyf_hostile_end_points() {
     kani::cover!(e1 <= e0, "non-increasing end points");
     std::mem::forget(table);
 }
+
+/// sbix: arbitrary strike offsets and glyph data offsets; every glyph id.
+// @bound sbix table of 44 bytes with 1 strike and 2 glyphs (numGlyphs is maxp's, concrete), every other byte symbolic (strike offset, the 3 glyph data offsets, data), truncated anywhere; any glyph id
+#[kani::proof]
+#[kani::unwind(6)]
+fn c01_sbix_any_offsets() {
+    use allsorts::bitmap::sbix::Sbix;
+    let mut buf: [u8; 44] = kani::any();
+    put16(&mut buf, 0, 1);
+    put32(&mut buf, 4, 1); // numStrikes (sizes a Vec: concrete)
+    let len = any_len(44);
+    let g: u16 = kani::any();
+    if let Ok(sbix) = ReadScope::new(&buf[..len]).read_dep::<Sbix<'_>>(2) {
+        assert!(sbix.strikes.len() == 1);
+        match sbix.strikes[0].read_glyph(g) {
+            Ok(Some(glyph)) => {
+                assert!(g < 2);
+                let s = be32(&buf, 8) as usize; // strike offset
+                let o0 = be32(&buf, s + 4 + 4 * g as usize) as usize;
+                let o1 = be32(&buf, s + 8 + 4 * g as usize) as usize;
+                assert!(o1 > o0 && o1 - o0 >= 8, "a glyph record is at least its 8-byte header");
+                assert!(glyph.data.len() == o1 - o0 - 8, "graphic data is the record minus the header");
+                assert!(s + o1 <= len, "record lies inside the table");
+                kani::cover!(glyph.data.len() == 3);
+            }
+            Ok(None) => {
+                assert!(g < 2);
+            }
+            Err(_) => {}
+        }
+        kani::cover!(g == 1, "second glyph looked up");
+        std::mem::forget(sbix);
+    }
+}
